@@ -1,4 +1,5 @@
 import Verif.Model.Cognates
+import Verif.Model.Turchin
 import Verif.Model.Partial
 import Verif.Model.Components
 import Verif.Driver.Util
@@ -7,6 +8,13 @@ open Verif.Cognates
 
 def handleCog (fs : List (List String)) : Option String :=
   match fs with
+  | [["turchin"], vowels, [h], a, b] =>
+    -- class strings as code points; the vowel classes of the model; the code of 'H'
+    let vs := vowels.map nat!
+    let isV := fun (c : Nat) => vs.contains c
+    let ka := Verif.Turchin.key isV (nat! h) (a.map nat!)
+    let kb := Verif.Turchin.key isV (nat! h) (b.map nat!)
+    some (s!"T {Verif.Turchin.dist isV (nat! h) (a.map nat!) (b.map nat!)} " ++ ",".intercalate (ka.map toString) ++ " " ++ ",".intercalate (kb.map toString))
   | [["glue"], [k], parts] =>
     -- parts: idx1,idx2,..:lab1,lab2,..
     let ps : List (List Nat × List Nat) := parts.map fun s =>
